@@ -234,6 +234,9 @@ impl Property for C02 {
     fn id(&self) -> &'static str {
         "C02"
     }
+    fn ir_shrinkable(&self) -> bool {
+        true
+    }
     fn fuzzable(&self) -> bool {
         true
     }
